@@ -236,6 +236,9 @@ func (w *World) buildHandlers(idx int, cfg *HandlerCfg) [4]http.Handler {
 		ics = append(ics[:pos], append([]connect.HandlerOption{rec}, ics[pos:]...)...)
 	}
 	opts = append(opts, ics...)
+	if cfg.Scratch {
+		opts = append(opts, connect.WithInterceptors(scratchInterceptor{}))
+	}
 	var out [4]http.Handler
 	out[KUnary] = connect.NewUnaryHandler(procName(idx, KUnary), w.serveUnary, opts...)
 	out[KClient] = connect.NewClientStreamHandler(procName(idx, KClient), w.serveClientStream, opts...)
@@ -368,6 +371,9 @@ func (w *World) client(p *CallPlan) *connect.Client[Msg, Msg] {
 	}
 	if cfg.Hedge {
 		opts = append(opts, connect.WithInterceptors(hedgeInterceptor{}))
+	}
+	if cfg.Scratch {
+		opts = append(opts, connect.WithInterceptors(scratchInterceptor{}))
 	}
 	if cfg.DeadlineIcpt {
 		opts = append(opts, connect.WithInterceptors(deadlineInterceptor{}))
@@ -1224,6 +1230,57 @@ func (hedgeInterceptor) WrapStreamingClient(next connect.StreamingClientFunc) co
 		backup.RequestHeader().Set("X-Attempt", "backup")
 		return primary
 	}
+}
+
+// scratchInterceptor is an inspecting interceptor that avoids allocations: it
+// receives every streamed message into one scratch value per stream - the
+// conn-level Receive, into a message that held the previous one - looks at it,
+// and copies it into the message the caller passed.
+type scratchInterceptor struct{}
+
+func (scratchInterceptor) WrapUnary(next connect.UnaryFunc) connect.UnaryFunc { return next }
+
+func (scratchInterceptor) WrapStreamingHandler(next connect.StreamingHandlerFunc) connect.StreamingHandlerFunc {
+	return func(ctx context.Context, conn connect.StreamingHandlerConn) error {
+		return next(ctx, &scratchHandlerConn{StreamingHandlerConn: conn})
+	}
+}
+
+func (scratchInterceptor) WrapStreamingClient(next connect.StreamingClientFunc) connect.StreamingClientFunc {
+	return func(ctx context.Context, spec connect.Spec) connect.StreamingClientConn {
+		return &scratchClientConn{StreamingClientConn: next(ctx, spec)}
+	}
+}
+
+type scratchHandlerConn struct {
+	connect.StreamingHandlerConn
+	scratch Msg
+}
+
+func (c *scratchHandlerConn) Receive(m any) error {
+	return viaScratch(c.StreamingHandlerConn.Receive, &c.scratch, m)
+}
+
+type scratchClientConn struct {
+	connect.StreamingClientConn
+	scratch Msg
+}
+
+func (c *scratchClientConn) Receive(m any) error {
+	return viaScratch(c.StreamingClientConn.Receive, &c.scratch, m)
+}
+
+func viaScratch(receive func(any) error, scratch *Msg, m any) error {
+	dst, ok := m.(*Msg)
+	if !ok {
+		return receive(m)
+	}
+	if err := receive(scratch); err != nil {
+		return err
+	}
+	proto.Reset(dst)
+	proto.Merge(dst, scratch)
+	return nil
 }
 
 // deadlineInterceptor is the usual default-timeout interceptor: the call runs
